@@ -249,9 +249,17 @@ def bit_length(v):
     return n
 
 
+def byte_length(v):
+    """(bits() + 7) / 8: number of base-256 digits of v (0 for zero) = smallest n with v < 256**n"""
+    n = 0
+    while v >= 256 ** n:
+        n += 1
+    return n
+
+
 def target_to_compact(target):
     """arith_uint256::GetCompact(fNegative=false) for 0 <= target < 2**256"""
-    size = (bit_length(target) + 7) // 8
+    size = byte_length(target)           # nSize = (bits() + 7) / 8
     if size <= 3:
         compact = target << (8 * (3 - size))
     else:
